@@ -54,6 +54,9 @@ def run(tier, seed, replay=None):
     for i in range(n // 4):
         t, m = rgen.tp_program(rng, planted=False)
         free.append(("free", t, m))
+    # planning programs (rules, sub-goals, disjunctions): not planted - only "rejected with an error" is judged here
+    from .. import plgen
+    plans = [plgen.program(rng)[0] for _ in range(n // 3)]
     truth = smt2.decide([m for _, _, m in free])
     # metamorphic variants of a third of the constraint programs (planted and free)
     bases = [p for p in planted if p[0].startswith("cons")][: n // 3] + free[: n // 3]
@@ -69,6 +72,14 @@ def run(tier, seed, replay=None):
                 v = e2e.verdict(o)
                 key = v.split(":")[0]
                 stats[(cfg, "objects-" + ("sat" if sols else "unsat"), key)] = stats.get((cfg, "objects-" + ("sat" if sols else "unsat"), key), 0) + 1
+            worst_e = None
+            for t, o in zip(plans, e2e.solve_all(cfg, plans)):
+                v = e2e.verdict(o)
+                stats[(cfg, "planning", v.split(":")[0])] = stats.get((cfg, "planning", v.split(":")[0]), 0) + 1
+                if v.startswith("E:") and (worst_e is None or len(t) < len(worst_e[0])):
+                    worst_e = (t, o, v)
+            if worst_e:
+                rep.violation(f"[{cfg}] a well-typed planning program is rejected with an error: {worst_e[2]}", e2e.replay_of(worst_e[0], cfg, worst_e[1]), tags={"error-planning:" + cfg})
             texts = [p[1] for p in planted] + [p[1] for p in free] + [v[2] for v in var_progs]
             outs = e2e.solve_all(cfg, texts)
             vs = [e2e.verdict(o) for o in outs]
@@ -107,6 +118,8 @@ def run(tier, seed, replay=None):
             for (t, m), o, sols in zip(oo, oo_outs, oo_truth):
                 if e2e.verdict(o) == "F" and sols:
                     note("objects", t, o, f"an object-oriented program is rejected as unsolvable although the reference domains admit {sols[0]}")
+                elif e2e.verdict(o).startswith("E:"):
+                    note("error-objects", t, o, f"a well-typed object-oriented program is rejected with an error: {e2e.verdict(o)}")
             for tag, (txt, o, msg) in worst.items():
                 r = e2e.replay_of(txt, cfg, o)
                 rep.violation(f"[{cfg}] {msg[:500]}", r, tags={tag + ":" + cfg, tag})
